@@ -49,6 +49,19 @@ def build_geo(recipe, repo):
             geo.atmosphere_volume = op[1]
         elif k == 'atmconn':
             geo.atmosphere_connection = op[1]
+        elif k == 'copy_layers':
+            # the layer structure is replaced by that of another geometry (columns keep their surfaces)
+            other = mulgrid().rectangular([1.0], [1.0], list(op[1]), origin=[0.0, 0.0, op[2]], convention=geo.convention,
+                                          atmos_type=geo.atmosphere_type)
+            geo.copy_layers_from(other)
+        elif k == 'add_layers':
+            # new layers with a different top elevation, then the usual index set-up
+            geo.add_layers(list(op[1]), op[2])
+            for col in geo.columnlist: geo.set_column_num_layers(col)
+            geo.setup_block_name_index()
+            geo.setup_block_connection_name_index()
+        elif k == 'rename_col':
+            geo.rename_column([geo.columnlist[i].name for i, _ in op[1]], [n for _, n in op[1]])
         elif k == 'centres':
             # layer centres off the mid-point (a MULgraph file gives each layer's centre separately)
             for i, f in op[1]:
@@ -188,6 +201,15 @@ def gen_recipe(rng, kind=None, repo='/repo', big=False):
     if rng.random() < 0.4: ops.append(('atmvol', rng.choice([1.e25, 1.e50, 1.e20, rng.uniform(1e10, 1e30)])))
     if rng.random() < 0.4: ops.append(('atmconn', rng.choice([1.e-6, 1.e-3, 1.0, rng.uniform(1e-9, 10.0)])))
     if rng.random() < 0.3:
+        # replace the layer structure (other top elevation): columns keep their (default or file) surfaces
+        g0 = rebuild()
+        ground, smin = float(g0.layerlist[0].bottom), min(float(c.surface) for c in g0.columnlist)
+        dz = rnd_spacings(rng, rng.randint(1, 8 if big else 6))
+        top = ground + rng.choice([0.0, 1.0, -1.0, 1.0, -1.0]) * rng.uniform(0.2, 1.6) * dz[0]
+        need = (top - smin) + rng.uniform(0.2, 1.0) * dz[-1]
+        if sum(dz) < need: dz[-1] += need - sum(dz)
+        ops.append((rng.choice(['copy_layers', 'add_layers']), [float(x) for x in dz], float(top)))
+    if rng.random() < 0.3:
         nl = len(rebuild().layerlist)
         ops.append(('centres', [(i, rng.choice([0.25, 0.4, 0.6, 0.75, rng.uniform(0.05, 0.95)]))
                                 for i in range(1, nl) if rng.random() < 0.7]))
@@ -195,6 +217,25 @@ def gen_recipe(rng, kind=None, repo='/repo', big=False):
     mode = rng.choices(['default', 'some', 'all', 'slope', 'boundary'], [12, 25, 38, 15, 10])[0]
     surf = choose_surfaces(rng, geo, mode)
     if surf: ops.append(('surface', surf))
+    if surf and rng.random() < 0.15:
+        again = choose_surfaces(rng, rebuild(), 'some')            # surfaces reassigned
+        if again: ops.append(('surface', again))
+    # configuration reached by assignment on the finished geometry (no refresh calls of ours after these):
+    geo = rebuild()
+    if rng.random() < 0.35:
+        ops.append(('atm', rng.choice([k for k in range(3) if k != geo.atmosphere_type])))
+    if rng.random() < 0.2 and all(c.num_nodes in (3, 4) for c in geo.columnlist):
+        ops.append(('order', rng.choice([o for o in (None, 'layer_column', 'dmplex') if o != geo.block_order])))
+    if rng.random() < 0.2:
+        L = geo.colname_length
+        taken = set(c.name for c in geo.columnlist) | set(['ATM'[:L]])
+        ren = []
+        for i in sorted(rng.sample(range(geo.num_columns), min(geo.num_columns, rng.choice([1, 2, 5])))):
+            while True:
+                n = ''.join(rng.choice('abcdefghijklmnopqrstuvwxyzABCDEFGHIJKLMNOPQRSTUVWXYZ') for _ in range(L))
+                if n not in taken: break
+            taken.add(n); ren.append((i, n))
+        ops.append(('rename_col', ren))
     geo = rebuild()
     if rng.random() < 0.45:
         names = list(geo.block_name_list)
